@@ -31,6 +31,14 @@ pub fn anyv<T: Default>() -> T {
     T::default()
 }
 #[cfg(kani)]
+pub fn any_bytes<const N: usize>() -> [u8; N] {
+    kani::any()
+}
+#[cfg(not(kani))]
+pub fn any_bytes<const N: usize>() -> [u8; N] {
+    [0u8; N]
+}
+#[cfg(kani)]
 pub fn assume(c: bool) {
     kani::assume(c)
 }
